@@ -502,7 +502,8 @@ def np_round(eng, st, args, kw, node):
 
 def np_ceil(eng, st, args, kw, node):
     v = to_z3(args[0], REAL)
-    return -z3.ToReal(z3.ToInt(-v))          # ceil(v) = -floor(-v); z3's to_int is floor
+    f = z3.ToInt(v)                          # z3's to_int is floor; ceil(v) = floor(v) if v is an integer else floor(v) + 1
+    return z3.ToReal(z3.If(v == z3.ToReal(f), f, f + 1))
 
 
 def np_floor(eng, st, args, kw, node):
